@@ -746,6 +746,10 @@ fn perm_digits_case(cx: &mut Ctx, digits: &[u8], elem: &str) {
         "string" => perm_case(cx, "string", digits.iter().map(|&d| STRS[d as usize].to_string()).collect(), &format!("perm:{}:string", ds)),
         "tuple" => perm_case(cx, "tuple", digits.iter().map(|&d| TUPS[d as usize]).collect(), &format!("perm:{}:tuple", ds)),
         "reverse" => perm_case(cx, "reverse", digits.iter().map(|&d| Reverse(d)).collect(), &format!("perm:{}:reverse", ds)),
+        // elements of 32 and 40 bytes (an implementation may move wide elements by another route), and boxed ones
+        "wide" => perm_case(cx, "wide", digits.iter().map(|&d| [d as u64, 7, 7, d as u64 ^ 5]).collect(), &format!("perm:{}:wide", ds)),
+        "strpair" => perm_case(cx, "strpair", digits.iter().map(|&d| (STRS[d as usize].to_string(), d as usize * 3, d as u64)).collect(), &format!("perm:{}:strpair", ds)),
+        "boxed" => perm_case(cx, "boxed", digits.iter().map(|&d| Box::new(d as u32)).collect(), &format!("perm:{}:boxed", ds)),
         other => cx.rep.inconclusive(format!("unknown element kind {}", other)),
     }
 }
@@ -924,7 +928,7 @@ fn plan_perms(plan: &mut Plan, thorough: bool, seed: u64) {
             n3 += 1;
             if len <= 5 {
                 // other element types (String, tuple, a reversed order) for the short sequences
-                for elem in ["string", "tuple", "reverse"] {
+                for elem in ["string", "tuple", "reverse", "wide", "strpair", "boxed"] {
                     plan.tasks.push(Task::PermDigits { digits: digits.clone(), elem });
                 }
             }
@@ -953,7 +957,7 @@ fn plan_perms(plan: &mut Plan, thorough: bool, seed: u64) {
     for _ in 0..if thorough { 600 } else { 120 } {
         let len = rng.range_usize(0, 6);
         let digits: Vec<u8> = (0..len).map(|_| rng.below(10) as u8).collect();
-        let elem = *rng.pick(&["string", "tuple", "reverse"]);
+        let elem = *rng.pick(&["string", "tuple", "reverse", "wide", "strpair", "boxed"]);
         plan.tasks.push(Task::PermDigits { digits, elem });
     }
     // longer sequences with a bounded number of arrangements (beyond the stated scope of lengths, still lawful)
